@@ -181,18 +181,49 @@ def sync_and_generate(gens: list[str] | None = None) -> dict[str, str]:
     return errors
 
 
+def _killed(rc: int, text: str) -> bool:
+    """the process was killed from outside (kernel OOM killer, SIGKILL) rather than failing on its own: no Coq error"""
+    if "Error:" in text:
+        return False
+    return rc in (137, -9, 134, -6) or (rc not in (0, 124) and not text.strip()) or "Killed" in text or "Error 137" in text
+
+
 def make(targets: list[str], timeout: int = 1500) -> tuple[bool, str]:
-    cmd = ["make", f"-j{NPROC}", "-k"] + targets
-    rc, out, err = run(["timeout", str(timeout)] + cmd, timeout + 30, cwd=COQ_BUILD)
-    return rc == 0, out + err
+    """`make -k` of the targets.  A build whose compiler processes were killed from outside (memory pressure on a shared
+    machine) or that timed out while the machine is overloaded is retried with fewer jobs: such an event says nothing
+    about the proofs (a genuine Coq error always prints `Error:` and is never retried)."""
+    jobs = NPROC
+    log = ""
+    for attempt in range(3):
+        cmd = ["make", f"-j{jobs}", "-k"] + targets
+        rc, out, err = run(["timeout", str(timeout)] + cmd, timeout + 30, cwd=COQ_BUILD)
+        log = out + err
+        if rc == 0:
+            return True, log
+        overloaded = os.getloadavg()[0] > 2 * NPROC
+        if not (_killed(rc, log) or (rc == 124 and overloaded)):
+            return False, log
+        time.sleep(10 * (attempt + 1))
+        jobs = max(2, jobs // 2)
+    return False, log
 
 
 def coqc(path: Path, timeout: int = 600, extra: list[str] | None = None) -> tuple[int, str]:
-    cmd = ["timeout", str(timeout), "coqc", "-R", str(COQ_BUILD), "PD", "-w",
-           "-notation-overridden,-deprecated-hint-without-locality,-deprecated-instance-without-locality,-ambiguous-paths"]
-    cmd += (extra or []) + [str(path)]
-    rc, out, err = run(cmd, timeout + 30, cwd=path.parent)
-    return rc, out + err
+    cmd_tail = ["coqc", "-R", str(COQ_BUILD), "PD", "-w",
+                "-notation-overridden,-deprecated-hint-without-locality,-deprecated-instance-without-locality,-ambiguous-paths"]
+    cmd_tail += (extra or []) + [str(path)]
+    rc, text = 1, ""
+    for attempt in range(3):
+        t = timeout * (2 if attempt else 1)
+        rc, out, err = run(["timeout", str(t)] + cmd_tail, t + 30, cwd=path.parent)
+        text = out + err
+        if rc == 0:
+            break
+        overloaded = os.getloadavg()[0] > 2 * NPROC
+        if not (_killed(rc, text) or (rc == 124 and overloaded and attempt == 0)):
+            break
+        time.sleep(5 * (attempt + 1))  # killed from outside / overloaded machine: says nothing about the file
+    return rc, text
 
 
 def grep_forbidden() -> list[str]:
